@@ -63,7 +63,48 @@ class _Self:
 
 STUBS = {"_is_boolean": lambda x: isinstance(x, bool), "_is_integer": lambda x: isinstance(x, int) and not isinstance(x, bool),
          "isposinf": lambda x: x == math.inf, "isneginf": lambda x: x == -math.inf, "isinf": lambda x: abs(x) == math.inf, "inf": math.inf}
-VALUES = {"A": 2.5, "B": math.inf, "C": -math.inf}
+VALUES = {"A": 2.5, "B": math.inf, "C": -math.inf, "D": 3e-13, "E": 0.1}  # D: a small but legal value (lower limits are 1e-24 or 0)
+
+
+def _globals(model) -> Dict[str, Any]:
+    """Module-level helpers of base.py are interpreted too; names imported from SymPy are SymPy's own functions (library
+    semantics are trusted, the repository's are not)."""
+    import ast
+    import sympy
+    from ..miniinterp import module_globals
+    tree = model.repo.modules["pyimpspec.circuit.base"].tree
+    lib: Dict[str, Any] = {}
+    for st in tree.body:
+        if isinstance(st, ast.ImportFrom) and st.module == "sympy":
+            for a in st.names:
+                if hasattr(sympy, a.name):
+                    lib[a.asname or a.name] = getattr(sympy, a.name)
+    lib.update(STUBS)
+    g = module_globals(tree, lib)
+    g.update(lib)
+    return g
+
+
+def _same_table(got: Dict[str, Any], want: Dict[str, Any]) -> bool:
+    if set(got) != set(want):
+        return False
+    for k, w in want.items():
+        g = got[k]
+        if isinstance(w, float) and not isinstance(g, (str, tuple)) and g is not None:
+            try:
+                if abs(complex(g) - w) > 1e-12 * abs(w):
+                    return False
+            except (TypeError, ValueError):
+                return False
+        elif isinstance(w, str) and w in ("oo", "-oo") and not isinstance(g, (str, tuple)) and g is not None:
+            try:
+                if float(g) != (math.inf if w == "oo" else -math.inf):
+                    return False
+            except (TypeError, ValueError):
+                return False
+        elif g != w:
+            return False
+    return True
 
 
 def _expected(values, label, identifier, substitute) -> Dict[str, Any]:
@@ -82,6 +123,7 @@ def naming_problems(model, qual: str) -> Tuple[List[Dict[str, Any]], int]:
     problems: List[Dict[str, Any]] = []
     n = 0
     container = qual.startswith("Container")
+    glob = _globals(model)
     for substitute in (False, True):
         for label in ("", "lbl"):
             for ident in ((-1, 0, 5) if not container else ("none", 4)):
@@ -99,7 +141,7 @@ def naming_problems(model, qual: str) -> Tuple[List[Dict[str, Any]], int]:
                     identifier = ident
                 desc = f"substitute={substitute}, label={label!r}, identifier{'s' if container else ''}={ident}"
                 try:
-                    out = Mini(STUBS).call_function(fi.node, args)
+                    out = Mini(glob).call_function(fi.node, args)
                 except InterpRaise as e:
                     problems.append(dict(kind="raises", input=desc, got=e.kind, want="a SymPy expression"))
                     continue
@@ -117,7 +159,7 @@ def naming_problems(model, qual: str) -> Tuple[List[Dict[str, Any]], int]:
                         problems.append(dict(kind="naming", input=desc, got=f"generate_element_identifiers(running={me.gen})", want="generate_element_identifiers(running=False) when no identifiers are given"))
                     if ident != "none" and used_ids is not idmap:
                         problems.append(dict(kind="naming", input=desc, got="another identifier map is handed to _sympy", want="the caller's identifiers"))
-                if table != want:
+                if not _same_table(table, want):
                     bad_names = not substitute and {k: table.get(k) for k in VALUES} != {k: want[k] for k in VALUES}
                     problems.append(dict(kind="naming" if bad_names else "substitution", input=desc, got=_short(table), want=_short(want)))
                 if kw.get("substitute") is not substitute:
